@@ -289,11 +289,12 @@ def parDisc (bs : List Disc) : Disc :=
 def requiresMda (ds : List Disc) (group : List Nat) : Bool :=
   group.length > 1 || (match group with | [d] => selfCoupledAt ds d | _ => false)
 
-/-- The grammars of the processes `MDAChain._create_mdo_chain` builds, and of the chain itself. -/
-def mdaChainGrammar (ds : List Disc) (seq : List (List (List Nat))) (parallel : Bool)
-    (gaussSeidel : Bool := false) : List String × List String :=
+/-- The grammars of the processes `MDAChain._create_mdo_chain` builds, and of the chain itself,
+    for a given decision `req` of which groups get an inner MDA. -/
+def mdaChainGrammarWith (ds : List Disc) (seq : List (List (List Nat))) (parallel : Bool)
+    (gaussSeidel : Bool) (req : List Nat → Bool) : List String × List String :=
   let blockOf : List Nat → Disc := fun g =>
-    if requiresMda ds g then
+    if req g then
       -- `MDAGaussSeidel._initialize_grammars` is the chain rule, `BaseMDA`'s is the union
       (if gaussSeidel then chainDisc (g.filterMap (fun i => ds[i]?)) else mdaDisc ds g)
     else match g with
@@ -304,6 +305,11 @@ def mdaChainGrammar (ds : List Disc) (seq : List (List (List Nat))) (parallel : 
     | [g] => blockOf g
     | _ => if parallel then parDisc (stage.map blockOf) else chainDisc (stage.map blockOf)
   chainGrammar (seq.map stageOf)
+
+/-- The grammars of an `MDAChain` of plain disciplines. -/
+def mdaChainGrammar (ds : List Disc) (seq : List (List (List Nat))) (parallel : Bool)
+    (gaussSeidel : Bool := false) : List String × List String :=
+  mdaChainGrammarWith ds seq parallel gaussSeidel (requiresMda ds)
 
 /-- An affine output `name = const + Σ coef · input`. -/
 structure LinOut where
@@ -409,6 +415,92 @@ def solveGroupBlock (ds : List LinDisc) (group : List Nat) : Block := fun e =>
   match solveGroup ds group e with
   | some kv => kv.foldl (fun acc p => acc.put p.1 p.2) e
   | none => e
+
+/-! ### Processes as disciplines of an `MDAChain`
+
+A discipline handed to an `MDAChain` may itself be a process: an `MDOChain` of some disciplines or
+an MDA built beforehand. For the dependency graph it is one node with the grammars of the process;
+`MDAChain.__requires_mda` wraps a self-coupled one in an inner MDA unless it *is* an MDA. -/
+
+/-- What a discipline handed to the `MDAChain` is. -/
+inductive PKind
+  | plain
+  | process
+  | mda
+  deriving DecidableEq, Repr
+
+/-- `MDAChain.__requires_mda`, kinds included: several disciplines, or one self-coupled
+    discipline that is not already an MDA (`not isinstance(disciplines[0], BaseMDA)`). -/
+def requiresMdaK (ds : List Disc) (kind : Nat → PKind) (group : List Nat) : Bool :=
+  group.length > 1 ||
+    (match group with
+     | [d] => selfCoupledAt ds d && kind d != PKind.mda
+     | _ => false)
+
+/-- An item of the listing given to the `MDAChain`: the plain discipline `i`, an `MDOChain` of the
+    disciplines `ms` (in that order), an MDA of the disciplines `ms` built beforehand
+    (`gs` = `MDAGaussSeidel`, whose grammars follow the chain rule). -/
+inductive Item
+  | plain (i : Nat)
+  | chain (ms : List Nat)
+  | mda (ms : List Nat) (gs : Bool)
+  deriving Repr
+
+def Item.members : Item → List Nat
+  | .plain i => [i]
+  | .chain ms => ms
+  | .mda ms _ => ms
+
+def Item.kind : Item → PKind
+  | .plain _ => .plain
+  | .chain _ => .process
+  | .mda _ _ => .mda
+
+/-- The grammars the item shows to the `MDAChain`. -/
+def Item.disc (ds : List Disc) : Item → Disc
+  | .plain i => (ds[i]?).getD ⟨"", [], [], []⟩
+  | .chain ms => chainDisc (ms.filterMap (fun i => ds[i]?))
+  | .mda ms gs => if gs then chainDisc (ms.filterMap (fun i => ds[i]?)) else mdaDisc ds ms
+
+def runAt (lds : List LinDisc) (i : Nat) : Block :=
+  match lds[i]? with
+  | some d => d.run
+  | none => id
+
+/-- One execution of the item: a discipline body, one sweep of the chain, the solved MDA. -/
+def Item.run (lds : List LinDisc) : Item → Block
+  | .plain i => runAt lds i
+  | .chain ms => chainEval (ms.map (runAt lds))
+  | .mda ms _ => solveGroupBlock lds ms
+
+def kindAt (items : List Item) (i : Nat) : PKind :=
+  match items[i]? with
+  | some it => it.kind
+  | none => .plain
+
+def runItemAt (lds : List LinDisc) (items : List Item) (i : Nat) : Block :=
+  match items[i]? with
+  | some it => it.run lds
+  | none => id
+
+def membersOf (items : List Item) (g : List Nat) : List Nat :=
+  g.flatMap (fun i => match items[i]? with | some it => it.members | none => [])
+
+/-- The `MDAChain` over a listing of items: the sequence is computed from the grammars of the
+    items, a group that requires an MDA is solved over all the disciplines inside its items. -/
+def nestedEval (lds : List LinDisc) (items : List Item) (parallel : Bool) (e : Env) : Env :=
+  let ds := lds.map (·.disc)
+  let tds := items.map (Item.disc ds)
+  mdaChainEval (sequence tds)
+    (runItemAt lds items)
+    (requiresMdaK tds (kindAt items))
+    (fun g => solveGroupBlock lds (membersOf items g))
+    (fun g => g.flatMap (outputsAt tds)) parallel e
+
+/-- The groups of items the `MDAChain` builds an inner MDA for. -/
+def nestedInnerMdas (ds : List Disc) (items : List Item) : List (List Nat) :=
+  let tds := items.map (Item.disc ds)
+  (sequence tds).flatten.filter (requiresMdaK tds (kindAt items))
 
 /-! ### `order_disciplines_from_default_inputs` -/
 
